@@ -97,6 +97,10 @@ def do_op(op, k, scratch):
         Vi = ufl.FunctionSpace(mi, basix.ufl.element("iso", "triangle", 1))
         ffcx.compiler.compile_ufl_objects([ufl.TrialFunction(Vi) * ufl.TestFunction(Vi) * ufl.dx], options=ffcx.options.get_options({}), namespace="hI")
     elif op == "S":
+        if m.ufl_cell().cellname == "quadrilateral":
+            # the op is about a SIMPLEX form under the shared sum_factorization=True options (standard elements on quadrilaterals are the
+            # known finding of C10, an AssertionError - not what this op is for)
+            m, V, f, c, v, u = _unrelated(k + 1)
         ffcx.compiler.compile_ufl_objects([f * u * v * ufl.dx], options=shared_options(), namespace="hS")
     elif op == "G":
         import basix.ufl
